@@ -245,3 +245,38 @@ def source_literals(limit=70001):
                 if 0 <= v + d: out.add(v + d)
         _LITS = sorted(out)
     return [v for v in _LITS if v < limit]
+
+
+_TELLING = None
+
+
+def telling_secrets():
+    """small secret exponents whose public point has a telling byte pattern: x or y with one or two leading zero bytes, x or y
+    ending in 0x00, x starting with a SEC prefix byte (02/03/04) or a version byte (0x80, 0xef, 0x6f, 0x05, 0xc4).  Found by
+    scanning d = 2, 3, ... with libsecp256k1 (deterministic).  -> list of (kind, d)"""
+    global _TELLING
+    if _TELLING is not None: return _TELLING
+    import coincurve
+    want = {'x00': 3, 'y00': 3, 'x0000': 1, 'y0000': 1, 'x..00': 2, 'y..00': 2,
+            'x02': 1, 'x03': 1, 'x04': 1, 'x80': 1, 'xef': 1, 'x6f': 1, 'x05': 1, 'xc4': 1}
+    out = []
+    d = 1
+    while want and d < 200000:
+        d += 1
+        P = coincurve.PrivateKey(d.to_bytes(32, 'big')).public_key.format(compressed=False)
+        x, y = P[1:33], P[33:]
+        kinds = []
+        if x[0] == 0: kinds.append('x00')
+        if y[0] == 0: kinds.append('y00')
+        if x[:2] == b'\0\0': kinds.append('x0000')
+        if y[:2] == b'\0\0': kinds.append('y0000')
+        if x[-1] == 0: kinds.append('x..00')
+        if y[-1] == 0: kinds.append('y..00')
+        for b, nm in ((2, 'x02'), (3, 'x03'), (4, 'x04'), (0x80, 'x80'), (0xef, 'xef'), (0x6f, 'x6f'), (5, 'x05'), (0xc4, 'xc4')):
+            if x[0] == b: kinds.append(nm)
+        for k in kinds:
+            if k in want:
+                out.append((k, d)); want[k] -= 1
+                if want[k] == 0: del want[k]
+    _TELLING = out
+    return out
